@@ -2,6 +2,8 @@
 import YawVerif.Drv.Common
 import YawVerif.Model.Reader
 import YawVerif.Model.Pipeline
+import YawVerif.Model.Parquet
+import YawVerif.Model.Groupby
 
 open Yaw Yaw.Proto Yaw.Drv
 
@@ -30,12 +32,45 @@ def hHeader : R String := do
   let byte := Rd.encodeHeader fun k => match k with | 0 => f0 | 1 => f1 | _ => f2
   pure s!"{byte} {Rd.decodeHeader byte 0} {Rd.decodeHeader byte 1} {Rd.decodeHeader byte 2}"
 
+/-- `pq <ngroups> size* <c> <k>` → after each of `k` calls: `<chunk length>:<first row>:<row groups requested>` -/
+def hParquet : R String := do
+  let ng ← nat
+  let sizes ← nats ng
+  let c ← nat
+  let k ← nat
+  -- rows are numbered 0.. in file order
+  let mut file : List (List Nat) := []
+  let mut at_ := 0
+  for sz in sizes.toList do
+    file := file ++ [(List.range sz).map (· + at_)]
+    at_ := at_ + sz
+  let mut s := Yaw.Parquet.start file
+  let mut out : Array String := #[]
+  for _ in [0:k] do
+    let (chunk, s') := Yaw.Parquet.next c s
+    s := s'
+    out := out.push s!"{chunk.length}:{chunk.headD 0}:{s.requested}"
+  pure (join out)
+
+/-- `groupby <n> (key value)*n` → `key:v,v,…;key:…` (group members in stable order) -/
+def hGroupby : R String := do
+  let n ← nat
+  let mut l : List (Nat × Nat) := []
+  for _ in [0:n] do
+    let k ← nat
+    let v ← nat
+    l := l ++ [(k, v)]
+  let gs := Yaw.Groupby.groupby l
+  pure (";".intercalate (gs.map fun g => s!"{g.1}:" ++ ",".intercalate (g.2.map toString)))
+
 def handler (kind : String) : R String :=
   match kind with
   | "requests" => hRequests
   | "randsizes" => hRandSizes
   | "split" => hSplit
   | "header" => hHeader
+  | "pq" => hParquet
+  | "groupby" => hGroupby
   | _ => throw s!"unknown kind {kind}"
 
 end Yaw.Drv.GenReader
